@@ -304,6 +304,62 @@ def check_values(kind, a, b, vals):
     return None
 
 
+def raws_of(line):
+    """the standard draws written on the line (floats; 16 hex digits = double)"""
+    if " | " not in line + " ":
+        return None
+    t = (line + " ").split(" | ", 1)[1].strip()
+    if not t:
+        return []
+    out = []
+    for x in t.split(","):
+        out.append(struct.unpack(">d", struct.pack(">Q", int(x, 16)))[0] if len(x) == 16 else unh(x))
+    return out
+
+
+def same(v, e):
+    return v == e or (v != v and e != e)
+
+
+def spec_values(kind, a, b, raws):
+    """The values the contract prescribes for the standard draws `raws` of the device's stream (float arithmetic
+    emulated through doubles: + - * of two floats rounded once more to float is exact). None = not determined here."""
+    if kind == "bernoulli":
+        return [1.0 if u < a else 0.0 for u in raws]
+    if kind == "uniform":
+        if not (finite(a) and finite(b) and finite(f32(b - a))):
+            return None
+        w = f32(b - a)
+        out = []
+        for u in raws:
+            x = f32(f32(w * u) + a)
+            out.append(b if (a < b and x <= a) else x)          # (lower, upper]: a draw equal to lower becomes upper
+        return out
+    if kind == "normal":
+        if not (finite(a) and finite(b)):
+            return None
+        return [f32(f32(z * b) + a) for z in raws]
+    return None
+
+
+def check_against_spec(kind, a, b, vals, raws, who):
+    if raws is None or len(raws) != len(vals):
+        return None
+    want = spec_values(kind, a, b, raws)
+    if want is not None:
+        for i, (v, e) in enumerate(zip(vals, want)):
+            if not same(v, e):
+                return "%s: element %d is %r, but %s(%r, %r) of the stream's standard draw %r is %r" % (who, i, v, kind, a, b, raws[i], e)
+    if kind == "log_normal" and finite(a) and finite(b):
+        for i, (v, z) in enumerate(zip(vals, raws)):
+            arg = f32(f32(b * z) + a)
+            if abs(arg) < 80:
+                e = math.exp(arg)
+                if not (abs(v - e) <= 1e-5 * e):
+                    return "%s: element %d is %r, but exp(mean + sd*z) for the stream's standard normal draw %r is %r" % (who, i, v, z, e)
+    return None
+
+
 def dropout_x(n):
     return [((i % 13) - 6) * 0.25 + 0.125 for i in range(n)]
 
@@ -343,7 +399,7 @@ def judge_line(line, impl):
                 n *= x
             if len(vals) != n:
                 return "%d values for a shape of %d elements" % (len(vals), n)
-            return check_values(op, a, b, vals)
+            return check_values(op, a, b, vals) or check_against_spec(op, a, b, vals, raws_of(line), op)
         return None
     if op == "gumbel":
         if ok and impl.endswith(" far"):
@@ -381,6 +437,12 @@ def judge_line(line, impl):
                     continue
                 if keep == 0 or not (abs(v - xi / keep) <= 1e-6 * abs(xi / keep)):
                     return "dropout element %r is neither 0 nor x/(1-rate) = %r" % (v, xi / keep if keep else None)
+            us = raws_of(line)
+            if us is not None and len(us) == n and rate != 1.0:
+                for i, (u, v) in enumerate(zip(us, vals)):
+                    if (v != 0) != (u < keep):
+                        return "dropout element %d is %s although the stream's uniform draw %r is %s 1-rate = %r" % (
+                            i, "kept" if v != 0 else "dropped", u, "<" if u < keep else ">=", keep)
             if rate == 1.0 and any(v != 0 for v in vals):
                 return "dropout with rate 1 keeps an element"
             if rate == 0.0 and vals != x:
@@ -434,7 +496,7 @@ def judge_line(line, impl):
             vals = values(impl)[1]
             if len(vals) != n:
                 return "%d values for %d elements" % (len(vals), n)
-            return check_values(kind, a, b, vals)
+            return check_values(kind, a, b, vals) or check_against_spec(kind, a, b, vals, raws_of(line), name)
         return None
     return None
 
@@ -578,6 +640,11 @@ def run(chk):
         return rec["lines"]
 
     # decisions: violations of the property seen on the implementation (at most two inputs per request kind and failure class)
+    for d in dis:
+        w = judge_line(d["line"], d["impl"])
+        if w and not any(j["line"] == d["line"] and j["lines"][:1] == d["lines"][:1] for j in judged):
+            r2 = dict(d); r2["what"] = w
+            judged.append(r2)
     groups = {}
     for j in judged:
         key = key_of(j["line"], j["impl"], j["what"])
